@@ -1,17 +1,56 @@
 import Driver.Common
+import Sourmash.Model.Scaled
 import Sourmash.Model.Datasets
 import Sourmash.Model.Index
 import Sourmash.Spec.Index
-/-! C07 driver: counters and threshold searches of the three index types over one collection.
-Request grammar: harness/src/bin/c07.rs. -/
+/-! C07 driver: counters and threshold searches of the three index types over one collection, and
+histories on the index objects (select on a LinearIndex, Collection::select before a build, update /
+reopen of the on-disk index).  Request grammar: harness/src/bin/c07.rs. -/
 open Driver RevIdx
 
 namespace C07
 
 structure St where
-  C : List (List Nat) := []
-  mem : Option (H2C × Colors) := none
-  disk : Db := {}
+  raw : List Rec := []                              -- the case's signatures, one sketch each
+  chain : List Sel := []                            -- `csel` selections, applied before every `mk`
+  lin : Option Lin := none
+  mem : Option (List Rec × (H2C × Colors)) := none  -- the index's collection and its two maps
+  disk : Option (List Rec × Db) := none             -- the index's collection and the database
+
+def codec : ManyCodec := roaringCodec
+
+def molOf (s : String) : Nat :=
+  if s == "protein" then 1 else if s == "dayhoff" then 2 else if s == "hp" then 3 else 0
+
+/-- `<k>:<mol>:<abund>:<s|n><v>:<hashes>`, or a bare hash list = k 21, DNA, flat, scaled 1 -/
+def parseRec (loc : Nat) (s : String) : Rec :=
+  match s.splitOn ":" with
+  | [k, mol, ab, kind, hs] =>
+    let v := (kind.drop 1).toString.toNat!
+    let isNum := kind.startsWith "n"
+    let mh := if isNum then 0 else Scaled.maxHashForScaled v
+    { loc := loc, ksize := k.toNat!, mol := molOf mol, tracked := ab == "1", num := if isNum then v else 0,
+      maxHash := mh, scaled := Scaled.scaledForMaxHash mh, hashes := natList hs }
+  | _ =>
+    let mh := Scaled.maxHashForScaled 1
+    { loc := loc, ksize := 21, mol := 0, tracked := false, num := 0, maxHash := mh,
+      scaled := Scaled.scaledForMaxHash mh, hashes := natList s }
+
+def parseRecs (s : String) : List Rec :=
+  let parts := s.splitOn ";"
+  (List.range parts.length).zipWith parseRec parts
+
+/-- `-` or `key=value,…` with keys k, mol, abund, scaled, num -/
+def parseSel (s : String) : Sel :=
+  if s == "-" then {} else
+  (s.splitOn ",").foldl (fun (sel : Sel) kv =>
+    match kv.splitOn "=" with
+    | ["k", v] => { sel with ksize := some v.toNat! }
+    | ["mol", v] => { sel with moltype := some (molOf v) }
+    | ["abund", v] => { sel with abund := some (v == "1") }
+    | ["scaled", v] => { sel with scaled := some v.toNat! }
+    | ["num", v] => { sel with num := some v.toNat! }
+    | _ => sel) {}
 
 def parseColl (s : String) : List (List Nat) := (s.splitOn ";").map natList
 
@@ -20,6 +59,10 @@ def showCounter (c : List (Nat × Nat)) : String :=
 
 def showMatches (m : List (Nat × Nat)) : String := s!"{showCounter m} ordered"
 
+def errName : Nat → String
+  | 1 => "err MismatchKSizes"
+  | _ => "err MismatchDNAProt"
+
 partial def balanced : List Nat → RTree
   | [] => .ident
   | [d] => .leaf d
@@ -27,48 +70,137 @@ partial def balanced : List Nat → RTree
 
 def scoreBits (size qsize : Nat) : Nat := (Float.ofNat size / Float.ofNat qsize).toBits.toNat
 
+def hashesOf (rs : List Rec) : List (List Nat) := rs.map (·.hashes)
+
+def applyChain (chain : List Sel) (rs : List Rec) : List Rec := chain.foldl (fun rs s => selectRecs s rs) rs
+
+/-- the collection a `mk` / `upd` sees: the selections of the chain over the first `n` signatures -/
+def current (st : St) (n : Option String) : List Rec :=
+  applyChain st.chain (match n with
+    | some n => st.raw.take n.toNat!
+    | none => st.raw)
+
+/-- mem `RevIndex::new_with_sigs` without queries: `none` = a panic (empty collection, or a sketch not
+compatible with the template = dataset 0) -/
+def memBuild (rs : List Rec) : Option (H2C × Colors) :=
+  match Lin.make rs with
+  | none => none
+  | some l => if rs.all (fun r => r.compat l.template) then (balanced (List.range rs.length)).eval (hashesOf rs) else none
+
+def diskGrouping : Grouping := chunkGrouping 3 2 false
+
+/-- the collection of the index of one kind, if it exists -/
+def recsOf (st : St) (kind : String) : Option (List Rec) :=
+  match kind with
+  | "lin" => st.lin.map (·.recs)
+  | "mem" => st.mem.map (·.1)
+  | _ => st.disk.map (·.1)
+
+/-- the model's counter; `none` = PANIC -/
+def counterOf (st : St) (kind : String) (q : Rec) : Option (List (Nat × Nat)) :=
+  match kind with
+  | "lin" => st.lin.bind (fun l => l.counter q)
+  | "mem" => st.mem.map (fun m => memCounter m.2 q.hashes)
+  | _ => st.disk.map (fun d => diskCounter codec d.2 q.hashes)
+
+/-- what the property demands: the exact overlaps with the datasets of the index as it is now, when
+these are compatible scaled sketches (compatible with the query too); nothing otherwise -/
+def specCounter (st : St) (kind : String) (q : Rec) : Option (List (Nat × Nat)) :=
+  match recsOf st kind with
+  | none => none
+  | some rs => if rs.all (fun r => r.compat q && r.num == 0) then some (refCounter (hashesOf rs) q.hashes) else none
+
 def step (st : St) (ws : List String) : St × Resp :=
   match ws with
   | ["case", _, "coll", s] =>
-    let C := parseColl s
-    ({ C := C, mem := (balanced (List.range C.length)).eval C,
-       disk := createDb roaringCodec C [] (chunkGrouping 3 2 false) }, { model := "ok" })
+    let rs := parseRecs s
+    let C := hashesOf rs
+    ({ raw := rs, lin := Lin.make rs, mem := (memBuild rs).map (fun r => (rs, r)),
+       disk := some (rs, createDb codec C [] diskGrouping) }, { model := "ok" })
+  | ["case", _, "mix", s] => ({ raw := parseRecs s }, { model := "ok" })
   | "case" :: _ => ({}, { model := "ok" })
+  | ["csel", sel] =>
+    let st := { st with chain := st.chain ++ [parseSel sel] }
+    (st, { model := showNats (locsOf (current st none)) })
+  | "mk" :: kind :: n =>
+    let rs := current st n.head?
+    match setCheck rs with
+    | 0 =>
+      let ok : String := s!"ok {rs.length}"
+      match kind with
+      | "lin" => match Lin.make rs with
+        | some l => ({ st with lin := some l }, { model := ok })
+        | none => ({ st with lin := none }, { model := "PANIC" })
+      | _ => ({ st with disk := some (rs, createDb codec (hashesOf rs) [] diskGrouping) }, { model := ok })
+    | e => (if kind == "lin" then { st with lin := none } else { st with disk := none }, { model := errName e })
+  | "mkmem" :: sel :: n =>
+    let rs := selectRecs (parseSel sel) (match n.head? with
+      | some n => st.raw.take n.toNat!
+      | none => st.raw)
+    match setCheck rs with
+    | 0 => match memBuild rs with
+      | some r => ({ st with mem := some (rs, r) }, { model := s!"ok {rs.length}" })
+      | none => ({ st with mem := none }, { model := "PANIC" })
+    | e => ({ st with mem := none }, { model := errName e })
+  | ["sel", "lin", sel] =>
+    match st.lin with
+    | none => (st, { model := "PANIC" })
+    | some l => match l.select (parseSel sel) with
+      | .ok l' => ({ st with lin := some l' }, { model := s!"ok {l'.recs.length}" })
+      | .error e => ({ st with lin := none }, { model := errName e })
+  | ["upd", "disk", n] =>
+    match st.disk with
+    | none => (st, { model := "PANIC" })
+    | some (old, db) =>
+      let rs := current st (some n)
+      match setCheck rs with
+      | 0 => match updateDb codec db old rs (hashesOf rs) [] diskGrouping with
+        | some db' => ({ st with disk := some (rs, db') }, { model := s!"ok {rs.length}" })
+        | none => ({ st with disk := none }, { model := "err MismatchKSizes" })
+      | e => (st, { model := errName e })
+  | ["reopen", "disk"] =>
+    match st.disk with
+    | none => (st, { model := "PANIC" })
+    | some (rs, _) => (st, { model := s!"ok {rs.length}" })
+  | ["locs", kind] =>
+    (st, { model := match recsOf st kind with
+      | some rs => showNats (locsOf rs)
+      | none => "PANIC" })
   | ["cnt", kind, q] =>
-    let Q := natList q
-    let m := match kind with
-      | "lin" => showCounter (linearCounter st.C Q)
-      | "mem" => match st.mem with
-        | some r => showCounter (memCounter r Q)
-        | none => "PANIC"
-      | _ => showCounter (diskCounter roaringCodec st.disk Q)
-    (st, { model := m, spec := showCounter (refCounter st.C Q) })
+    let Q := parseRec 0 q
+    let m := match counterOf st kind Q with
+      | some c => showCounter c
+      | none => "PANIC"
+    (st, { model := m, spec := match specCounter st kind Q with
+      | some c => showCounter c
+      | none => "-" })
   | ["search", kind, q, t] =>
-    let Q := natList q
+    let Q := parseRec 0 q
     let t := t.toNat!
-    let m := match kind with
-      | "lin" => showMatches (linearSearch (linearCounter st.C Q) t)
-      | "mem" => match st.mem with
-        | some r => showMatches (linearSearch (memCounter r Q) t)
-        | none => "PANIC"
-      | _ => showMatches (matchesFromCounter (diskCounter roaringCodec st.disk Q) t)
+    let m := match counterOf st kind Q with
+      | some c => showMatches (if kind == "disk" then matchesFromCounter c t else linearSearch c t)
+      | none => "PANIC"
     -- spec: the entries of the exact counter meeting the threshold, by (count desc, id)
-    (st, { model := m, spec := showMatches (mostCommon (refMatches (refCounter st.C Q) t)) })
+    (st, { model := m, spec := match specCounter st kind Q with
+      | some c => showMatches (mostCommon (refMatches c t))
+      | none => "-" })
   | ["cntq", t, qs, q] =>
     -- mem index built with `queries = Some(qs)`: exact for a query covered by `qs`
     let Q := natList q
-    let m := match (balanced (List.range st.C.length)).evalQ st.C (parseColl qs) t.toNat! with
+    let C := hashesOf st.raw
+    let m := match (balanced (List.range C.length)).evalQ C (parseColl qs) t.toNat! with
       | some r => showCounter (memCounter r Q)
       | none => "PANIC"
-    (st, { model := m, spec := showCounter (refCounter st.C Q) })
+    (st, { model := m, spec := showCounter (refCounter C Q) })
   | ["capi", q, num, k, _] =>
     let Q := natList q
+    let C := hashesOf st.raw
     let thr := findThreshold num.toNat! k.toNat! Q.length
     let withScore (l : List (Nat × Nat)) := l.map (fun (i, n) => (i, scoreBits n Q.length))
     let m := match st.mem with
-      | some r => showMatches (withScore (linearSearch (memCounter r Q) thr))
+      | some r => showMatches (withScore (linearSearch (memCounter r.2 Q) thr))
       | none => "PANIC"
-    (st, { model := m, spec := showMatches (withScore (mostCommon (refMatches (refCounter st.C Q) thr))) })
+    (st, { model := m, spec := showMatches (withScore (mostCommon (refMatches (refCounter C Q) thr))) })
   | _ => (st, { model := "bad-op" })
 
 end C07
